@@ -559,4 +559,50 @@ theorem tokenize_induction (uc : UC) (P : Cursor → List Token → Prop)
       simp only [List.length_cons] at hl hs
       exact ih _ (by omega)
 
+
+/-! ### facts about single tokens -/
+
+theorem tokenAt_text_append (uc : UC) (c : Char) (cs : Cursor) :
+    (tokenAt uc (c :: cs)).text ++ (advanceToken uc (c :: cs)).rest = c :: cs :=
+  consumed_append ((advanceToken_rest_suffix uc c cs).trans (List.suffix_cons _ _))
+
+theorem tokenAt_len (uc : UC) (c : Char) (cs : Cursor) :
+    (tokenAt uc (c :: cs)).len = utf8Len (tokenAt uc (c :: cs)).text := by
+  simp only [tokenAt]
+  rw [utf8Len_consumed ((advanceToken_rest_suffix uc c cs).trans (List.suffix_cons _ _))]
+  rfl
+
+theorem tokenAt_text_ne_nil (uc : UC) (c : Char) (cs : Cursor) :
+    (tokenAt uc (c :: cs)).text ≠ [] :=
+  consumed_ne_nil (advanceToken_rest_length_lt uc c cs)
+
+theorem tokenAt_ok (uc : UC) (hu : KeywordLettersAreIdStart uc) (c : Char) (cs : Cursor) :
+    (tokenAt uc (c :: cs)).ok = true := advanceKind_ok uc hu c cs
+
+theorem tokenAt_kind_ne_eof (uc : UC) (c : Char) (cs : Cursor) :
+    (tokenAt uc (c :: cs)).kind ≠ .eof := advanceToken_kind_ne_eof uc c cs
+
+theorem tokenAt_suffix_start (uc : UC) (c : Char) (cs : Cursor) (k : LiteralKind) (suf : Nat)
+    (h : (tokenAt uc (c :: cs)).kind = .literal k suf) : suf ≤ (tokenAt uc (c :: cs)).len := by
+  have hg := advanceKind_good uc c cs
+  simp only [tokenAt, advanceToken] at h ⊢
+  simp only [GoodKind, h] at hg
+  exact hg
+
+/-- a property of every `tokenAt` holds for every token of the stream -/
+theorem forall_tokenize (uc : UC) (Q : Token → Prop)
+    (h : ∀ c cs, Q (tokenAt uc (c :: cs))) (s : Cursor) : ∀ t ∈ tokenize uc s, Q t := by
+  refine tokenize_induction uc (fun _ ts => ∀ t ∈ ts, Q t) (by simp) ?_ s
+  intro c cs ih t ht
+  rcases List.mem_cons.mp ht with rfl | ht
+  · exact h c cs
+  · exact ih t ht
+
+theorem tokenize_texts (uc : UC) (s : Cursor) :
+    ((tokenize uc s).map (·.text)).flatten = s := by
+  refine tokenize_induction uc (fun s ts => (ts.map (·.text)).flatten = s) rfl ?_ s
+  intro c cs ih
+  simp only [List.map_cons, List.flatten_cons, ih]
+  exact tokenAt_text_append uc c cs
+
 end Oq3.Lemmas.Lexer
